@@ -376,6 +376,13 @@ func (env *Env) eq(a, b SV) *Term {
 	if a.T == nil || b.T == nil {
 		return env.x.freshVar("callee_local", SBool)
 	}
+	// a struct value is never nil (a value receiver compared with nil through an interface
+	// contract's `self != nil`)
+	if a.Ty != nil && b.T.Key() == Zero.Key() && b.T.Sort != a.T.Sort {
+		if _, ok := a.Ty.Underlying().(*types.Struct); ok {
+			return False
+		}
+	}
 	// nil comparisons on slices
 	if a.Ty != nil {
 		if _, ok := a.Ty.Underlying().(*types.Slice); ok && !isByteSlice(a.Ty) && b.T.Key() == Zero.Key() {
@@ -866,6 +873,22 @@ func (env *Env) call(e *Expr) SV {
 		if t == nil {
 			return env.fail("unknown type %s", e.Args[1].Lit)
 		}
+		if a := arg(0); a.Ty != nil {
+			if it, isI := a.Ty.Underlying().(*types.Interface); isI {
+				if _, tIsI := t.Underlying().(*types.Interface); !tIsI && !types.Implements(t, it) {
+					// a value of interface type never holds a type that does not implement it
+					return SV{T: False, Ty: bt}
+				}
+			} else {
+				// a value of concrete static type: its type is known
+				if types.Identical(a.Ty, t) {
+					return SV{T: True, Ty: bt}
+				}
+				if _, tIsI := t.Underlying().(*types.Interface); !tIsI {
+					return SV{T: False, Ty: bt}
+				}
+			}
+		}
 		return SV{T: x.hasType(st, arg(0).T, t), Ty: bt}
 	case "unboxAs":
 		if len(e.Args) < 2 || e.Args[1].Kind != "str" {
@@ -874,6 +897,9 @@ func (env *Env) call(e *Expr) SV {
 		t := env.lookupType(e.Args[1].Lit)
 		if t == nil {
 			return env.fail("unknown type %s", e.Args[1].Lit)
+		}
+		if a := arg(0); a.Ty != nil && types.Identical(a.Ty, t) {
+			return SV{T: a.T, Ty: t} // already a value of that type
 		}
 		return SV{T: x.unbox(arg(0).T, t), Ty: t}
 	case "done":
@@ -990,7 +1016,7 @@ func (env *Env) call(e *Expr) SV {
 		cenv.binds["result0"] = specBinding{Val{T: app}, rt}
 		st.add(rangeFacts(app, rt)...)
 		for _, en := range ct.Ensures {
-			if en.AssumeScoped && len(en.Props) > 0 && x.prop != "" && !hasProp(en.Props, x.prop) {
+			if len(en.Props) > 0 && x.prop != "" && !hasProp(en.Props, x.prop) {
 				continue
 			}
 			t := cenv.eval(en.Expr)
@@ -1072,11 +1098,19 @@ func (env *Env) call(e *Expr) SV {
 			return SV{T: Forall([]*Term{bv}, Implies(rng, env.asBool(body))), Ty: bt}
 		}
 		return SV{T: Not(Forall([]*Term{bv}, Implies(rng, Not(env.asBool(body))))), Ty: bt}
-	case "allocated":
-		return SV{T: Le(arg(0).T, st.ghostInt("top")), Ty: bt}
-	case "fresh":
+	case "allocated", "fresh":
+		a := arg(0)
+		ref := a.T
+		if a.Ty != nil {
+			if _, isSl := a.Ty.Underlying().(*types.Slice); isSl {
+				ref = sliceAcc(a.T, 0) // a slice is fresh when its backing array is
+			}
+		}
+		if e.Name == "allocated" {
+			return SV{T: Le(ref, st.ghostInt("top")), Ty: bt}
+		}
 		o := env.inOld()
-		return SV{T: Gt(arg(0).T, o.st.ghostInt("top")), Ty: bt}
+		return SV{T: Gt(ref, o.st.ghostInt("top")), Ty: bt}
 	}
 	// pure module functions callable in contracts: f(args) or recv.m(args) are not parsed as
 	// calls on selectors; only plain spec definitions reach here
